@@ -30,8 +30,10 @@ Record mst := {
 }.
 
 (* MergeQueueInner::is_complete *)
+(* MergeQueueInner::is_complete, as written:
+     remaining == 0 && self.running_merges == 0 && (self.runs.len() == 1 || self.runs.is_empty()) *)
 Definition complete (s : mst) : bool :=
-  (remaining s =? 0) && (merging s =? 0) && (runs s <=? 1).
+  (remaining s =? 0) && (merging s =? 0) && ((runs s =? 1) || (runs s =? 0)).
 
 (* PartitionWakers::wake_all *)
 Definition mwake (p : mph) : mph := match p with MParked => MMerge | q => q end.
@@ -120,3 +122,61 @@ Definition mmeasure (s : mst) : nat := (length (mps s) + 1) * mwork s + count is
 
 Definition future_blocks (p : mph) : nat := match p with MColl k => k | _ => 0 end.
 Definition total_blocks (ks : list nat) : nat := fold_right Nat.add 0 ks.
+
+
+(* ---------------------------------------------------------------------------------------------
+   The queue's bookkeeping as executable functions (one per critical section), compared step for
+   step with the real MergeQueue by `gv_sched mq` (hooks verif_state / verif_hooks::IN_FLIGHT).
+   q_wakers p = a waker is stored in wakers[p].  proofs/BarrierMQProofs.v shows that every mstep of
+   the relational model above is one of these operations (mq_model_steps_are_queue_ops). *)
+Record mq := { q_runs : nat; q_remaining : nat; q_merging : nat; q_wakers : list bool }.
+
+Definition q_complete (q : mq) : bool :=
+  (q_remaining q =? 0) && (q_merging q =? 0) && ((q_runs q =? 1) || (q_runs q =? 0)).
+
+(* new + prepare_for_partitions(n) *)
+Definition q_new (n : nat) : mq :=
+  {| q_runs := 0; q_remaining := n; q_merging := 0; q_wakers := repeat false n |}.
+
+(* indices of stored wakers, ascending: what wake_all fires *)
+Fixpoint stored_from (i : nat) (l : list bool) : list nat :=
+  match l with [] => [] | b :: t => (if b then [i] else []) ++ stored_from (S i) t end.
+Definition q_stored (q : mq) : list nat := stored_from 0 (q_wakers q).
+Definition q_clear (q : mq) : list bool := map (fun _ => false) (q_wakers q).
+
+(* add_sorted_blocks: runs.extend(k blocks); remaining.dec_by_one()? (Err if it was 0) *)
+Definition q_add (q : mq) (k : nat) : mq * bool :=
+  if q_remaining q =? 0 then
+    ({| q_runs := q_runs q + k; q_remaining := 0; q_merging := q_merging q; q_wakers := q_wakers q |}, false)
+  else
+    ({| q_runs := q_runs q + k; q_remaining := q_remaining q - 1; q_merging := q_merging q; q_wakers := q_wakers q |}, true).
+
+Inductive qpoll := QFinished | QPending | QPopped.
+(* poll_merge_next, first critical section *)
+Definition q_poll (q : mq) (p : nat) : mq * qpoll :=
+  if q_complete q then (q, QFinished)
+  else if q_runs q <? 2 then
+    ({| q_runs := q_runs q; q_remaining := q_remaining q; q_merging := q_merging q;
+        q_wakers := upd (q_wakers q) p true |}, QPending)
+  else
+    ({| q_runs := q_runs q - 2; q_remaining := q_remaining q; q_merging := S (q_merging q);
+        q_wakers := q_wakers q |}, QPopped).
+
+(* poll_merge_next, second critical section: push_back; running_merges -= 1; wake_all *)
+Definition q_merge_done (q : mq) : mq * list nat :=
+  ({| q_runs := S (q_runs q); q_remaining := q_remaining q; q_merging := q_merging q - 1;
+      q_wakers := q_clear q |}, q_stored q).
+
+Inductive qtake := QErr | QSome | QNone.
+(* take_sorted_run *)
+Definition q_take (q : mq) : mq * qtake * list nat :=
+  if q_complete q then
+    if q_runs q =? 0 then
+      ({| q_runs := 0; q_remaining := q_remaining q; q_merging := q_merging q; q_wakers := q_clear q |}, QNone, q_stored q)
+    else
+      ({| q_runs := q_runs q - 1; q_remaining := q_remaining q; q_merging := q_merging q; q_wakers := q_clear q |}, QSome, q_stored q)
+  else (q, QErr, []).
+
+(* the queue part of a model state *)
+Definition q_of (s : mst) : mq :=
+  {| q_runs := runs s; q_remaining := remaining s; q_merging := merging s; q_wakers := map is_parked (mps s) |}.
